@@ -334,13 +334,41 @@ func (n *Node) Exec(b *Block, path Path, hook Hook) (res *Result) {
 	}
 	hash := blockHash(height, txs, b.Time)
 	if path == PathProcess2 {
-		// A different proposal for the same height first (without the user txs, other time).
+		// On even heights first a malformed proposal (no block metadata), which must be rejected
+		// without effect; on odd heights the valid alternative is the first proposal of the height.
+		if height%2 == 0 {
+			call()
+			other := [][]byte{}
+			_ = n.Mux.ProcessProposal(types.RequestProcessProposal{
+				Txs: other, ProposedLastCommit: types.CommitInfo{Votes: b.Votes}, Misbehavior: nil,
+				Hash: blockHash(height, other, b.Time.Add(time.Second)), Height: height, Time: b.Time.Add(time.Second), ProposerAddress: b.Proposer,
+			})
+		}
+		// A different, VALID proposal for the same height first, which is then not decided: the
+		// replica prepares its own proposal (no user transactions, another time) as the proposer of
+		// an earlier round would, and validates it; afterwards the decided block arrives.
 		call()
-		other := [][]byte{}
-		_ = n.Mux.ProcessProposal(types.RequestProcessProposal{
-			Txs: other, ProposedLastCommit: types.CommitInfo{Votes: b.Votes}, Misbehavior: nil,
-			Hash: blockHash(height, other, b.Time.Add(time.Second)), Height: height, Time: b.Time.Add(time.Second), ProposerAddress: b.Proposer,
+		pk := n.ident.ConsensusSigner.Public()
+		own := Val{PubKey: pk[:]}.Address()
+		t2 := b.Time.Add(time.Second)
+		pr := n.Mux.PrepareProposal(types.RequestPrepareProposal{
+			MaxTxBytes:      int64(n.Doc.Consensus.Parameters.MaxBlockSize),
+			Txs:             nil,
+			LocalLastCommit: types.ExtendedCommitInfo{Votes: extVotes},
+			Height:          height,
+			Time:            t2,
+			ProposerAddress: own,
 		})
+		if os.Getenv("VERIF_CHAIN_DEBUG") != "" {
+			fmt.Fprintf(os.Stderr, "CHAIN own alternative proposal at height %d: %d txs\n", height, len(pr.Txs))
+		}
+		if len(pr.Txs) > 0 {
+			call()
+			_ = n.Mux.ProcessProposal(types.RequestProcessProposal{
+				Txs: pr.Txs, ProposedLastCommit: types.CommitInfo{Votes: b.Votes}, Misbehavior: nil,
+				Hash: blockHash(height, pr.Txs, t2), Height: height, Time: t2, ProposerAddress: own,
+			})
+		}
 	}
 	if path != PathReplay {
 		call()
